@@ -660,3 +660,97 @@ func init() {
 			}
 		}})
 }
+
+func init() {
+	register(&Rule{ID: "T6", Min: 18, Text: "every SDK-facing procedure asks for authorisation before it touches project data: each method of yorkieServer that implements the generated YorkieService handler interface calls auth.VerifyAccess, and the call dominates every write-capable step of the handler (packs.PushPull, subscriptions, revision create/restore, channel attach/detach); the Method it names is a constant of the handler's own procedure (no two handlers share one, so a copy-pasted handler cannot borrow another procedure's permission)",
+		Run: func(x *Ctx) {
+			verify := x.P.FnObj("server/rpc/auth.VerifyAccess")
+			srvT := x.P.Named("server/rpc.yorkieServer")
+			methodF := x.P.Field("api/types.AccessInfo.Method")
+			if verify == nil || srvT == nil || methodF == nil {
+				x.C.Unresolved(x.id(), "auth.VerifyAccess / rpc.yorkieServer / types.AccessInfo.Method")
+				return
+			}
+			// the handler interface: exported methods of yorkieServer with a connect request parameter
+			seenMethod := map[string]string{}
+			ppObj := x.P.FnObj("server/packs.PushPull")
+			effects := []*types.Func{ppObj,
+				x.P.FnObj(psPkg + ".(*PubSub).Subscribe"), x.P.FnObj(psPkg + ".(*PubSub).SubscribeChannel"),
+				x.P.FnObj("server/revisions.Create"), x.P.FnObj("server/revisions.Restore")}
+			n := 0
+			for _, fn := range x.P.FuncsIn("server/rpc") {
+				if fn.Parent() != nil || fn.Signature.Recv() == nil || !isNamed(fn.Signature.Recv().Type(), srvT) || fn.Object() == nil || !fn.Object().Exported() {
+					continue
+				}
+				n++
+				k := "handler=" + fn.Name()
+				vs := callsToIn(fn, verify)
+				var direct []ssa.CallInstruction
+				for _, v := range vs {
+					if v.Parent() == fn {
+						direct = append(direct, v)
+					}
+				}
+				if fn.Name() == "ActivateClient" || fn.Name() == "DeactivateClient" {
+					// activation has no document to authorise against; it still verifies access for the method
+				}
+				x.check(len(direct) >= 1 || x.reaching(verify)[fn], k+" verifies-access", x.fpos(fn), "the handler calls auth.VerifyAccess (directly or in the helper it delegates to)", "the handler never calls auth.VerifyAccess: the project's auth webhook is bypassed for this procedure")
+				if len(direct) == 0 {
+					continue
+				}
+				// dominates the effects
+				for _, eo := range effects {
+					if eo == nil {
+						continue
+					}
+					for _, e := range x.callsReaching(fn, eo) {
+						if _, isDefer := e.(*ssa.Defer); isDefer {
+							continue
+						}
+						ok := false
+						for _, v := range direct {
+							if prog.Dominates(v, e) {
+								if vc, isCall := v.(*ssa.Call); isCall && x.quietGuarded(e, []Cmp{errNilCmp(vc)}) {
+									ok = true
+								}
+							}
+						}
+						x.check(ok, fmt.Sprintf("%s access-verified-before=%s", k, eo.Name()), x.pos(e), "the effect is reachable only past a successful VerifyAccess", "a write-capable step ("+eo.Name()+") is reachable without a successful auth.VerifyAccess before it")
+					}
+				}
+				// the method constant
+				for _, v := range direct {
+					al, ok := prog.Strip(v.Common().Args[2]).(*ssa.Alloc)
+					if !ok {
+						continue
+					}
+					for _, r := range *al.Referrers() {
+						fa, ok := r.(*ssa.FieldAddr)
+						if !ok || prog.FieldVar(fa) != methodF {
+							continue
+						}
+						for _, rr := range *fa.Referrers() {
+							st, ok := rr.(*ssa.Store)
+							if !ok {
+								continue
+							}
+							c, isC := st.Val.(*ssa.Const)
+							if !isC || c.Value == nil {
+								continue
+							}
+							m := c.Value.ExactString()
+							if prev, dup := seenMethod[m]; dup && prev != fn.Name() {
+								x.fail(k+" method-constant-unique", x.pos(st), "the handler authorises as "+m+", the method constant of handler "+prev)
+							} else {
+								seenMethod[m] = fn.Name()
+								x.hold(k+" method-constant-unique", x.pos(st), "authorises as "+m)
+							}
+						}
+					}
+				}
+			}
+			if n < 18 {
+				x.C.Vacuous(x.id()+" handlers", n, 18)
+			}
+		}})
+}
